@@ -233,10 +233,18 @@ def run_property(prop_id: str, tier: str, seed: int, jobs: int, budget_s: float 
     if hasattr(mod, "self_check"):
         mod.self_check()
     shards = list(mod.shards(tier, seed))
+    caps = []
+    flt = os.environ.get("LMC_SHARD_FILTER")
+    if flt:
+        # development aid only (never used by a registered command): run the shards whose JSON contains every given
+        # fragment; the run is reported as capped, never as exhaustive
+        frags = [f for f in flt.split("&&") if f]
+        kept = [s for s in shards if all(f in json.dumps(s, sort_keys=True) for f in frags)]
+        caps.append(f"LMC_SHARD_FILTER={flt!r}: {len(kept)} of {len(shards)} shards run")
+        shards = kept
     n_shards = len(shards)
     jobs = max(1, min(jobs, n_shards))
     results = [None] * n_shards
-    caps = []
     ctx = mp.get_context("spawn")
     work = [(modname, i, s) for i, s in enumerate(shards)]
     if jobs == 1 and os.environ.get("LMC_INPROCESS"):
